@@ -68,6 +68,18 @@ def alac_harnesses():
                      bounds="%d channel(s), packet buffer shrunk to 256 bytes per channel (hook), %d packet(s) of 0..40 bytes already spooled, 0..3 frames pending; spool-file creation may fail, every spool write may be short"
                             % (ch, npk) + ("; every output write/seek may fail (fault schedule)" if faulty else "")))
     return out
+def setter_harnesses():
+    out = []
+    names = {1: "cue", 2: "inst", 3: "chanmap", 4: "str"}
+    for a, b in ((1, 1), (2, 2), (3, 3), (4, 4), (1, 2), (3, 1), (4, 3)):
+        out.append(H("setters_close.%s.%s" % (names[a], names[b]), "C16/setters_close.c", link=["common", "strings", "command"], stubs=["psf_log_printf", "psf_memset"],
+                     defines={"SET_A": a, "SET_B": b, "MF_CAP": 16, "SNP_MAX": 40, "PSF_MEMSET_MAX": 64, "MEMCPY_MAX": 600}, unwind=8,
+                     unwindset=["snprintf.0:41", "snprintf.1:41", "strlen.0:8", "psf_store_string.0:8", "psf_store_string.1:8", "memcpy.0:601", "memset.0:601", "sf_command.0:4"],
+                     checks="leak_np", include_env=("log_stub", "memfile", "memset_model", "snprintf_model", "clock_model"), timeout=300,
+                     functions=["sf_command(SFC_SET_CUE / SFC_SET_INSTRUMENT / SFC_SET_CHANNEL_MAP_INFO)", "sf_set_string", "psf_cues_dup", "psf_store_string", "psf_close"],
+                     bounds="two setter calls (%s then %s) with symbolic contents on a fresh write handle, then close" % (names[a], names[b])))
+    return out
+HARNESSES += setter_harnesses()
 HARNESSES += alac_harnesses()
 HARNESSES += seq_harnesses()
 HARNESSES += [h for h in _load("C14").HARNESSES if h.name == "fileio.ownership"]
